@@ -419,6 +419,9 @@ fn oracle(tys: &[Ty], real: &Real) -> (String, &'static str) {
         Real::Accepted | Real::AcceptedThenError(_) => {
             // every element type must have identical reference layouts
             for t in tys {
+                if !matches!(t, Ty::Struct(_)) {
+                    continue; // the property speaks about structures used as element types
+                }
                 let (h, m) = match (ref_layout(Rule::HlslSB, t), ref_layout(Rule::Metal, t)) {
                     (Some(h), Some(m)) => (h, m),
                     _ => return (format!("FAIL:accepted/no-reference-layout {}", show(t)), "accepted-unknown"),
@@ -453,6 +456,9 @@ fn oracle(tys: &[Ty], real: &Real) -> (String, &'static str) {
                 _ => return ("SKIP:cannot tell which type was rejected".into(), "rejected-unlocated"),
             };
             let t = &tys[k];
+            if !matches!(t, Ty::Struct(_)) {
+                return ("ok".into(), "rejected-non-struct");
+            }
             match (ref_layout(Rule::HlslSB, t), ref_layout(Rule::Metal, t)) {
                 (Some(h), Some(m)) => {
                     if n[0] != h.size || n[2] != m.size {
